@@ -6,8 +6,8 @@
 (* p + |site| + skip (its overhang is the next ovh bases); a backward site   *)
 (* (an occurrence of rsite) at start p cuts before p - skip (its overhang is *)
 (* the ovh bases before that point).  Directional digestion keeps exactly    *)
-(* the stretches between the cut of a forward site and the cut of the NEXT   *)
-(* site when that site is a backward one.                                    *)
+(* the stretches between the cut of a forward site and the NEXT cut when     *)
+(* that cut is a backward site's.                                            *)
 (*                                                                           *)
 (* Sequences are native strings (upper case); positions are 0-based; a       *)
 (* circular part is read cyclically, so nothing depends on the stored origin.*)
@@ -35,28 +35,47 @@ HasNextS(S, circ, a) == \E b \in S : Follows(circ, a, b)
 NextSiteS(S, n, circ, a) == CHOOSE b \in S : Follows(circ, a, b) /\
                                \A c \in S : Follows(circ, a, c) => DistN(n, circ, a, b) <= DistN(n, circ, a, c)
 
-(* the property's restriction on layouts: occurrences do not overlap, and a forward site and the    *)
-(* backward site that follows it leave room for both skips and both overhangs                        *)
+(* Cuts.  A forward site cuts where its overhang starts, a backward site where its overhang ends.    *)
+(* Fragments are delimited by CUTS in the order in which the cuts lie on the molecule - which is the *)
+(* order of the sites except where a backward site follows a forward one so closely that its cut     *)
+(* lies upstream of the forward site's cut (the two are then not paired with each other).            *)
+CutOf(e, a) == IF a.fwd THEN a.pos + Len(e.site) + e.skip ELSE a.pos - e.skip
+(* distance from the cut of a onward to the cut of b: 0..n-1 round a circle; the plain difference on a linear part *)
+CutDist(n, circ, e, a, b) == IF circ THEN (CutOf(e, b) - CutOf(e, a)) % n ELSE CutOf(e, b) - CutOf(e, a)
+CutFollows(n, circ, e, a, b) == b # a /\ (circ \/ CutDist(n, circ, e, a, b) >= 0)
+HasNextCutS(S, n, circ, e, a) == \E b \in S : CutFollows(n, circ, e, a, b)
+(* the site whose cut comes next after the cut of a (of two cuts at one point the forward one comes first) *)
+NextCutS(S, n, circ, e, a) ==
+    CHOOSE b \in S : /\ CutFollows(n, circ, e, a, b)
+                     /\ \A c \in S : CutFollows(n, circ, e, a, c) =>
+                            \/ CutDist(n, circ, e, a, b) < CutDist(n, circ, e, a, c)
+                            \/ CutDist(n, circ, e, a, b) = CutDist(n, circ, e, a, c) /\ (b.fwd \/ ~c.fwd)
+PairsS(S, n, circ, e) == {a \in S : a.fwd /\ HasNextCutS(S, n, circ, e, a) /\ ~NextCutS(S, n, circ, e, a).fwd}
+
+(* the property's restriction on layouts: occurrences do not overlap one another, the overhang is not *)
+(* longer than the site, and paired cuts are at least two overhang lengths apart                      *)
 InDomainS(S, n, circ, e) ==
     LET L == Len(e.site) IN
+    /\ e.ovh <= L
     /\ \A a, b \in S : a # b => a.pos # b.pos
-    /\ \A a \in S : HasNextS(S, circ, a) =>
-          LET b == NextSiteS(S, n, circ, a) IN
-          /\ DistN(n, circ, a, b) >= L
-          /\ (a.fwd /\ ~b.fwd) => DistN(n, circ, a, b) - L >= 2 * e.skip + 2 * e.ovh
+    /\ \A a \in S : HasNextS(S, circ, a) => DistN(n, circ, a, NextSiteS(S, n, circ, a)) >= L
+    /\ \A a \in PairsS(S, n, circ, e) :
+          LET b == NextCutS(S, n, circ, e, a) IN
+          /\ CutDist(n, circ, e, a, b) >= 2 * e.ovh
+          \* the stretch between paired cuts lies between the two sites (no pair is formed by going all the way
+          \* round a circle from a forward cut to the crossing cut of the backward site right behind it)
+          /\ CutDist(n, circ, e, a, b) = DistN(n, circ, a, b) - L - 2 * e.skip
     /\ circ => n >= L
 InDomain(s, circ, e) == InDomainS(Sites(s, circ, e), Len(s), circ, e)
 
-(* the fragment cut out between forward site a and the backward site b that follows it *)
+(* the fragment cut out between the cut of forward site a and the cut of backward site b *)
 FragmentOf(s, circ, e, a, b) ==
-    LET L == Len(e.site)
-        start == a.pos + L + e.skip
-        len == DistN(Len(s), circ, a, b) - L - 2 * e.skip
+    LET start == CutOf(e, a)
+        len == CutDist(Len(s), circ, e, a, b)
         txt == IF circ THEN CycSub(s, start, len) ELSE SubSeq(s, start + 1, start + len) IN
     [fo |-> SubSeq(txt, 1, e.ovh), seq |-> SubSeq(txt, e.ovh + 1, len - e.ovh), ro |-> SubSeq(txt, len - e.ovh + 1, len), at |-> a.pos]
-PairsS(S, n, circ) == {a \in S : a.fwd /\ HasNextS(S, circ, a) /\ ~NextSiteS(S, n, circ, a).fwd}
 (* the set of fragments, each tagged with the position of its forward site (so equal fragments stay distinct) *)
-FragmentsS(S, s, circ, e) == {FragmentOf(s, circ, e, a, NextSiteS(S, Len(s), circ, a)) : a \in PairsS(S, Len(s), circ)}
+FragmentsS(S, s, circ, e) == {FragmentOf(s, circ, e, a, NextCutS(S, Len(s), circ, e, a)) : a \in PairsS(S, Len(s), circ, e)}
 Fragments(s, circ, e) == FragmentsS(Sites(s, circ, e), s, circ, e)
 
 (* DEVIATION C10-forward-site-at-origin (as built): on a circular part the fragment of a forward site *)
